@@ -327,7 +327,7 @@ class Interp:
         if isinstance(fn, ast.Name) and fn.id in ('len', 'ord') and len(e.args) == 1:
             out = []
             for v, s in self.ev(e.args[0], st, depth):
-                if is_const(v) and isinstance(v[1], str):
+                if is_const(v) and isinstance(v[1], (str, bytes, tuple)):
                     try:
                         out.append((C(len(v[1]) if fn.id == 'len' else ord(v[1])), s))
                         continue
